@@ -302,7 +302,7 @@ pub fn run(tier: &str) -> Report {
     // family 2: structured programs (compiled, then recovered)
     let (b2, d2) = if thorough { (4, 2) } else { (3, 2) };
     let stats = explore_dfs(b2, 400_000, &|ch| {
-        let mut g = crate::c06::GB { ch, marker: 0, n_struct: 0, has_inner_label_or_nest: false, max_depth: d2, count_jmp: true };
+        let mut g = crate::c06::GB { ch, marker: 0, n_struct: 0, has_inner_label_or_nest: false, max_depth: d2, count_jmp: true, gotos: false };
         let b = g.block(d2, false);
         (format!("{{ {b} }}"), g.n_struct)
     }, &mut |_, (body, ns)| { if ns >= 1 && seen.insert(body.clone()) { bodies.push((body, "structured")); } });
